@@ -685,6 +685,41 @@ func (x *c19ctx) c19R2R6(closeFn *ssa.Function) (stClosed *ssa.Store) {
 		})
 		nRecv++
 		c.Req(good, "C19.R6:recv-loop-exit:"+fnName(fn), r6, pos, "the receive loop can return although ReadFrom on its socket succeeded (the socket stays open but deaf)")
+		// a read deadline that expires is not the end of the socket: behind the `Timeout() == true`
+		// edge the loop must come back to ReadFrom, never return (the socket is still open and
+		// installed -- as current or as previous -- and packets arriving later would be lost)
+		isRead := func(in ssa.Instruction) bool {
+			call, ok := in.(*ssa.Call)
+			return ok && invokeIs(call, "ReadFrom")
+		}
+		tmoGood, tmoPos, nTmo := true, "", 0
+		for _, b := range fn.Blocks {
+			for i, s := range b.Succs {
+				cnd, pol, ok := edgeFact(b, i)
+				if !ok || !pol {
+					continue
+				}
+				call, ok := resolve(cnd).(*ssa.Call)
+				if !ok || !invokeIs(call, "Timeout") {
+					continue
+				}
+				nTmo++
+				if len(s.Instrs) == 0 {
+					continue
+				}
+				for _, in := range reachFrom(fn, s.Instrs[0], isRead, nil) {
+					if r, isRet := in.(*ssa.Return); isRet && r.Block() != fn.Recover {
+						tmoGood, tmoPos = false, p.InstrPos(r)
+					}
+				}
+				if r, isRet := s.Instrs[0].(*ssa.Return); isRet {
+					tmoGood, tmoPos = false, p.InstrPos(r)
+				}
+			}
+		}
+		if nTmo > 0 {
+			c.Req(tmoGood, "C19.R6:recv-loop-survives-timeout:"+fnName(fn), r6, tmoPos, "the receive loop returns on a read-deadline expiry: the socket stays open (and installed) but nobody reads it any more, so packets that arrive on it -- e.g. on the previous socket before the next hop -- are lost")
+		}
 	}
 	c.Floor("C19.R6:recv-loops", nRecv, 1)
 	return stClosed
